@@ -267,6 +267,63 @@ def encoding_judge(enc, bom=False):
     return None
 
 
+# code-point classes a string in a result can be made of (one representative each): the compact repr must survive all of them
+REPR_CPS = ["a", "'", '"', chr(92), "\n", "\x00", "\x7f", "\xe9", "\u2028", "\uffff", "\U00010000", "\U0001f600", "\ud800", "\U0010ffff", "{", "%"]
+REPR_MAX = 2
+
+
+def repr_data(sv):
+    from cxxheaderparser.simple import ParsedData, NamespaceScope, Include
+    from cxxheaderparser.types import Variable, PQName, NameSpecifier, Type, FundamentalSpecifier, Value, Token
+
+    return ParsedData(namespace=NamespaceScope(variables=[Variable(name=PQName([NameSpecifier(sv)]), type=Type(PQName([FundamentalSpecifier("int")])),
+                                                                  value=Value([Token(sv, "STRING_LITERAL")]), doxygen=sv)], doxygen=sv), includes=[Include(sv)])
+
+
+def repr_judge(sv):
+    from cxxheaderparser.gentest import nondefault_repr
+
+    d = repr_data(sv)
+    ns = {}
+    exec("from cxxheaderparser.types import *\nfrom cxxheaderparser.simple import *\nfrom cxxheaderparser.tokfmt import Token", ns)
+    try:
+        text = nondefault_repr(d)
+        back = eval(text, ns)
+    except Exception as e:  # noqa
+        return f"nondefault_repr of a result holding the string {sv!a} does not evaluate: {type(e).__name__}: {e}"
+    if back != d:
+        return f"eval(nondefault_repr(d)) != d for a result holding the string {sv!a}"
+    return None
+
+
+def h_repr(c0: int, c1: int, c2: int) -> bool:
+    """
+    post: _
+    """
+    with NoTracing():
+        ch = Chooser([c0, c1, c2])
+        sv = ""
+        while len(sv) < REPR_MAX:
+            k = ch.pick(len(REPR_CPS) + 1)
+            if k == len(REPR_CPS):
+                break
+            sv += REPR_CPS[k]
+        if TWIN:
+            return False
+        return repr_judge(sv) is None
+
+
+def repr_replay(vals):
+    ch = Chooser(list(vals), prefix=())
+    sv = ""
+    while len(sv) < REPR_MAX:
+        k = ch.pick(len(REPR_CPS) + 1)
+        if k == len(REPR_CPS):
+            break
+        sv += REPR_CPS[k]
+    return sv, repr_judge(sv)
+
+
 def run(tier):
     from .. import chrun
     from cxxheaderparser import simple, dump, gentest
@@ -286,8 +343,23 @@ def run(tier):
         res = chrun.run(__name__, "h_parse_file", shards, timeout=(90 if tier == "quick" else 600), pool=pool)
         chrun.record(ck, res, "parse_file: opened once with (path, text mode, encoding E or utf-8-sig); '-' = stdin; result == parse_string",
                      bound="all paths <= 4 chars, all encodings <= 6 chars or None, str and PathLike")
+        rmax = 2 if tier == "quick" else 3
+        tw = chrun.run(__name__, "h_repr", [(0,)], timeout=60, globs=dict(TWIN=True, REPR_MAX=rmax), pool=pool)
+        chrun.record(ck, tw, "compact repr reachability twin", expect="refuted")
+        resr = chrun.run(__name__, "h_repr", [(a,) for a in range(len(REPR_CPS) + 1)], timeout=(90 if tier == "quick" else 600), globs=dict(TWIN=False, REPR_MAX=rmax), pool=pool)
+        chrun.record(ck, resr, "eval(nondefault_repr(d)) == d for results holding every string over the code-point classes (name, token text, doxygen, include)",
+                     bound=f"strings <= {rmax} code points over {len(REPR_CPS)} classes")
     finally:
         pool.shutdown()
+    globals()["REPR_MAX"] = rmax
+    for shard, args, kw, msg in resr.counterexamples[:3]:
+        vals = list(shard) + list(args)
+        sv, bad = repr_replay(vals)
+        ck.traces += 1
+        if bad is None:
+            raise HarnessError(f"compact-repr counterexample did not reproduce: {msg}")
+        body = ("from vf.props import c20\n" f"c20.REPR_MAX = {rmax}\nsv, bad = c20.repr_replay({vals!r})\nprint(ascii(sv)); print(bad)\nsys.exit(1 if bad else 0)\n")
+        ck.violation(bad, ck.write_replay(body), key=dict(kind="tool", what="compact-repr-string"))
     for shard, args, kw, msg in res.counterexamples[:3]:
         path = kw.get("path", args[0] if args else "a")
         enc = kw.get("enc", args[1] if len(args) > 1 else None)
